@@ -472,6 +472,21 @@ func runC03(r *Run, verifDir string) {
 			r.Unk("C03.T3", key, token.NoPos, "anchor missing")
 		} else {
 			var ea, cv *ssa.Call
+			// one way out: every big integer goes through bigIntToBytes (two's complement, sign word). A second
+			// emission in the method (a fast path for "small" values, ...) writes some values without it
+			nEmit := 0
+			allInstrs(fn, func(in ssa.Instruction) {
+				if c, ok := in.(*ssa.Call); ok {
+					if id := callID(&c.Call); id.pkg == ttlvPath && id.recv == "ttlvWriter" && (strings.HasPrefix(id.name, "encodeAppend") || id.name == "writeType") {
+						nEmit++
+					}
+				}
+			})
+			if nEmit > 1 {
+				r.Bad("C03.T3", key+"/single-emission", fn.Pos(), "BigInteger emits the item in %d places: only the route through bigIntToBytes(value, 8) writes the two's complement with its sign word; a value taking another route (e.g. a fast path for values that fit 64 bits: 2^63 <= v < 2^64 then has its top bit set and reads back negative) is not what was handed to the encoder", nEmit)
+			} else {
+				r.OK("C03.T3", key+"/single-emission", fn.Pos(), "one emission, fed by bigIntToBytes")
+			}
 			allInstrs(fn, func(in ssa.Instruction) {
 				if c, ok := in.(*ssa.Call); ok {
 					if callID(&c.Call).is(ttlvPath, "ttlvWriter", "encodeAppendLeftPadded") {
